@@ -5,7 +5,7 @@ CONSTANT MUT = "none"
 CONSTANT MODE = "corrupt"
 CONSTANT SIDS = {1, 4, 5}
 CONSTANT FREEVALS = {2, 96}
-CONSTANT DELTAS = {1, 50}
+CONSTANT DELTAS = {1, 50, 96}
 CONSTANT VALS = {0, 1, 2}
 CONSTANT ALPHAS = {3, 10}
 CONSTANT IDENTITY = TRUE
